@@ -23,7 +23,7 @@ def make_f(counter, name, weights=(2, 3, 5), kw=(("k", 7), ("j", 11))):
         r = 1
         for i, v in enumerate(a):
             r = r + weights[i % len(weights)] * v
-        for key, v in k.items():
+        for key, v in sorted(k.items(), key=lambda kv: kv[0]):    # order-insensitive (floats)
             r = r + kwd.get(key, 13) * v
         return r
     f.__name__ = name
